@@ -40,6 +40,19 @@
 
 #define SSL_MAX_IGNORED_MESSAGE_COUNT   1024
 
+#ifdef USE_DTLS
+/* What to do with a duplicate (an already seen handshake message or a record
+   of an old epoch): it is a reason to resend our last flight only as long as
+   nothing newer has been received from the peer since that flight was built.
+   Once newer messages have arrived the peer evidently has our flight; the
+   duplicate belongs to the flight we are receiving (or have received), and a
+   resend would be built from a half-advanced handshake state, or would
+   answer the peer's own retransmission for ever. */
+# define DTLS_DUPLICATE_RESPONSE(ssl) \
+    (((ssl)->lastMsn > (ssl)->flightLastMsn) ? \
+     MATRIXSSL_SUCCESS : DTLS_RETRANSMIT)
+#endif /* USE_DTLS */
+
 #ifndef USE_TLS_1_3_ONLY
 static int32 parseSSLHandshake(ssl_t *ssl, char *inbuf, uint32 len);
 static int32_t matrixSslDecodeTls12AndBelow(ssl_t *ssl,
@@ -814,7 +827,7 @@ SKIP_RECORD_PARSE:
                     {
                         /* Not even a record header: ignore the rest */
                         *buf = end;
-                        return DTLS_RETRANSMIT;
+                        return DTLS_DUPLICATE_RESPONSE(ssl);
                     }
                     c += 11;                                   /* Skip type, version, epoch to get to length */
                     /* borrow rc since we will be leaving here anyway */
@@ -828,7 +841,7 @@ SKIP_RECORD_PARSE:
                     c += rc; /* Skip FINISHED message we've already accepted */
                     *buf = c;
                 }
-                return DTLS_RETRANSMIT;
+                return DTLS_DUPLICATE_RESPONSE(ssl);
             }
             if (end - c > 0)
             {
@@ -853,7 +866,7 @@ SKIP_RECORD_PARSE:
             /* If getting epoch that is less than expected, we'll resend */
             if (rc == -1)
             {
-                return DTLS_RETRANSMIT;
+                return DTLS_DUPLICATE_RESPONSE(ssl);
             }
             /* Got FINISHED message without ever getting a change cipher spec */
             return MATRIXSSL_SUCCESS;
@@ -2109,7 +2122,7 @@ parseHandshake:
         else if (msn != 0 && ssl->lastMsn >= msn)
         {
             psTraceIntDtls("Ignoring already seen handshake msg %d\n", hsType);
-            return DTLS_RETRANSMIT;
+            return DTLS_DUPLICATE_RESPONSE(ssl);
         }
     }
 #endif /* USE_DTLS */
@@ -2316,7 +2329,7 @@ parseHandshake:
             else if (ssl->lastMsn >= msn)
             {
                 psTraceDtls("IGNORING ALREADY SEEN HELLO HANDSHAKE MSG\n");
-                return DTLS_RETRANSMIT;
+                return DTLS_DUPLICATE_RESPONSE(ssl);
             }
         }
 #endif  /* USE_DTLS */
